@@ -202,6 +202,38 @@ def check_C03(ctx):
             lshown += 1
             ctx.violation(f"[C03] {lab} ({sc.mode}): " + "; ".join(errs), "# reporter: text   harness/scenario_run <file> text <outdir>\n" + sc.text(), found_input=True, facts={"outside_bracket": True})
     ctx.coverage["outside_bracket_runs"] = len(lobs)
+    # what CUTE says about every test, against the model of its memo (Model/Cute.lean, theorems C03_cute_status / C03_cute_sequence):
+    # the tests of a run in the order they ran, with the failed checks each executed, the failure records counted, and how it ended
+    csc = [sc for sc in scens if sc.mode in ("fork", "inproc") and len({t.name for _, t in sc.root.tests()}) == len(list(sc.root.tests()))][: sizes(ctx, 120, 1500)]
+    cms = run_model_scenarios([sc.text() for sc in csc])
+    cobs = bench.run_many([(sc.text(), "cute") for sc in csc])
+    cin, cmeta = [], []
+    for sc, m, o in zip(csc, cms, cobs):
+        if m.halted is not None or status_of(o) not in ("0", "1"):
+            continue
+        tt = {path.split("/")[-1]: c for path, c in per_test_truth(m).items()}
+        order, per, cur = [], {}, None
+        for l in impl_proj(o, "cute"):
+            k, _, name = l.partition(" ")
+            if k == "starting" and name in tt: cur = name; order.append(name); per[name] = "S"
+            elif k in ("failure", "error", "success") and name == cur: per[name] += {"failure": "F", "error": "E", "success": "O"}[k]
+            elif k in ("beginning", "ending"): cur = None
+        if not order:
+            continue
+        cin.append("\n".join([f"mode {sc.mode}"] + [f"{tt[n][4]} {tt[n][1]} {1 if tt[n][3] else 0}" for n in order]) + "\n---\n")
+        cmeta.append((sc, order, per))
+    ncd = 0
+    if cin:
+        couts = run_model(["cute"], "".join(cin)).split("---\n")
+        for (sc, order, per), co in zip(cmeta, couts):
+            want = co.strip().split("\n")
+            got = [per[n] for n in order]
+            if got != want:
+                ncd += 1
+                if ncd <= 3:
+                    ctx.oblige("correspondence C03 (CUTE status lines)", False, f"tests {order}: CUTE shows {got} (S starting, F failure, E error, O success), the model {want}\n{sc.text()}")
+    ctx.oblige("correspondence C03: the CUTE reporter's lines for every test are what the model of its memo says", ncd == 0 and len(cin) > 20, f"{ncd} of {len(cin)} runs differ")
+    ctx.coverage["cute_model_runs"] = len(cin)
     ctx.coverage["samples"] = sample_of(scens)
     ctx.coverage["evaluations"] = ctx.coverage["correspondence"]["cases"]
     ctx.coverage["distinct_nontrivial"] = len({s.text() for s in scens})
@@ -387,8 +419,40 @@ def check_C18(ctx):
             for mode in ("fork", "inproc"):
                 if ctx.tier == "quick" and k == 2 * cap + 3 and mode == "inproc": continue
                 scens.append(Scen(S("top", items=[S("inner", items=[t.copy() for t in before] + [T("big", body=["P"] * k), T("b", body=["P"])])]), mode=mode, cap=cap))
+    # a test that has called skip_test() before it overflows the channel (the instance of finding F02 in this property's terms)
+    for k in (cap, cap + 10):
+        scens.append(Scen(S("top", items=[T("a", body=["P"]), T("big", body=["S"] + ["P"] * k), T("b", body=["P"])]), mode="fork", cap=cap))
     dis, orf = explore(ctx, bench, scens, ["text", "cute"], oracle_C18, "C18", check_events=True)
     report(ctx, bench, dis, orf, oracle_C18, "C18")
+    # checks that an exit handler of the test's process makes after the completion notice has gone out (a checking destructor, a leak
+    # detector): below the channel's capacity they are all counted; when they fill the channel the test's process is ended and the test is
+    # an exception; the failing check among them makes the verdict failure either way. (Judged by the oracle alone: the runner model
+    # has no exit handlers. When what the handler wrote fills the channel to the last page, the reporting process's own next notice
+    # does not fit either and the run ends there, killed by the signal it raises for that: a failing end, no count reported - accepted.)
+    late = []
+    for body_n, late_n in ((10, 20), (0, 5), (cap // 2, cap // 2 - 10), (cap - 5, 2), (cap - 2, 0), (cap - 1, 0), (cap - 1000, 3000), (cap // 2, cap), (3, cap - 5), (3, cap - 4), (3, cap + 20)):
+        for shape in (0, 1):
+            big = T("big", body=["P"] * body_n + [f"AL{late_n}"])
+            root = S("top", items=[T("a", body=["P"]), big, T("b", body=["P", "P"])]) if shape == 0 else S("top", items=[S("inner", items=[big]), T("b", body=["P", "P"])])
+            late.append((Scen(root, mode="fork", cap=cap), body_n, late_n, 3 if shape == 0 else 2))
+    lobs = bench.run_many([(sc.text(), "text") for sc, _, _, _ in late], timeout=120)
+    lshown = 0
+    for (sc, body_n, late_n, others), o in zip(late, lobs):
+        tot = observed_totals(o, "text")
+        st = status_of(o)
+        what = None
+        if st == "timeout":
+            what = "the run does not terminate"
+        elif st in ("0", "exit0"):
+            what = f"the run ends with status {st} although a check failed (totals {tot})"
+        elif st == "1" and tot is not None and int(tot[3]) == 0 and (int(tot[0]), int(tot[1])) != (body_n + late_n + others, 1):
+            what = f"no exception is reported, yet the totals {tot} are not the {body_n + late_n + others} passes and 1 failure that were made"
+        if what and lshown < 4:
+            lshown += 1
+            ctx.violation(f"[C18] a test that makes {body_n} checks and whose exit handler makes {late_n} more and a failing one (the channel holds {cap} records): {what}",
+                          "# reporter: text   harness/scenario_run <file> text <outdir>\n" + (sc.text() if len(sc.text()) < 4000 else sc.text()[:300] + f"\n# ... test big: {body_n} x P, then AL{late_n}"), found_input=True,
+                          facts={"late_checks": True, "body": body_n, "late": late_n})
+    ctx.coverage["exit_handler_runs"] = len(late)
     # the verdict of a run in which a test overflows the channel, under the reporters that fold their totals themselves: the
     # overflowing test in a sub-suite that is not the last one to finish, everything else green
     vs = []
@@ -1717,12 +1781,15 @@ def replay(ctx, path):
         reps = [rep.group(1)] if rep else ["text"]
         bench = Bench(ctx)
         for block in [b for b in re.split(r"\n(?=cfg )", body.strip()) if b.strip()]:
-            m = run_model_scenarios([block + "\n"])[0]
+            try:
+                m = run_model_scenarios([block + "\n"])[0]
+            except RuntimeError:
+                m = None      # a scenario with acts the runner model does not have (exit handlers ...): the implementation's run only
             for r in reps:
-                o = bench.run_many([(block + "\n", r)])[0]
-                print(f"--- reporter {r}: status {status_of(o)} (model {model_status(m)}), truth {m.truth}")
-                print(o.stdout[:3000])
-                print("disagreements:", compare(m, o, r))
+                o = bench.run_many([(block + "\n", r)], timeout=120)[0]
+                print(f"--- reporter {r}: status {status_of(o)}" + (f" (model {model_status(m)}), truth {m.truth}" if m else " (not a scenario of the runner model)"))
+                print(o.stdout[:3000]); print(o.stderr[-1500:])
+                if m: print("disagreements:", compare(m, o, r))
     elif re.search(r"^(expect|always|never|call|tally|mode) ", body, re.M):
         impl, exe = mocks_bench(ctx, asan=True)
         ops = [l for l in body.split("\n") if l.strip()]
